@@ -57,7 +57,7 @@ def rule_order(ctx, cb=CB, rule='order'):
     ctx.check(rule, 'forward-complete-iteration', not bad, ob, 'adaptors on the tx loop: %s' % [mir.method_name(c.name) for c in bad])
     # the helpers are unconditional inside the loop body
     for h in (rm, ins):
-        g = [x for x in util.guards_at(ob, h[3].bb) if 'next(' not in x and not x.startswith('branch(')]
+        g = [x for x in util.guards_at(ob, h[3].bb) if 'next(' not in x and not util.is_ok_guard(x)]
         ctx.check(rule, 'unconditional:%s' % h[0], not g, h[3], '%s runs for every tx' % h[0], bad_detail='%s is guarded by %s' % (h[0], g))
 
 
@@ -126,7 +126,7 @@ def rule_filter(ctx):
     ctx.check('filter', 'only-address-bearing', g == ['%s.1.script.address is Some' % out], ic[0], 'insert under %s' % g,
               bad_detail='insertion guarded by %s; required exactly: the output\'s script.address is Some' % g)
     v = canon(ins.op_expr(ic[0].args[2]))
-    exp = 'UnspentValue::UnspentValue{block_height: a2, value: %s.1.out.value, address: (%s.1.script.address as Some).0}' % (out, out)
+    exp = 'UnspentValue::UnspentValue{block_height: a2, value: %s.1.out.value, address: %s.1.script.address?}' % (out, out)
     ctx.check('filter', 'stored-value', v == exp, ic[0], 'stored %s' % v, bad_detail='stored %s, expected %s' % (v, exp))
     ctx.check('filter', 'into-the-callers-map', canon(ins.op_expr(ic[0].args[0])) == 'a3', ic[0], 'insert into the map parameter')
     ctx.check('filter', 'per-output', ins.loop_depth(ic[0].bb) == 1 and len(ins.loops()) == 1, ins, 'one insertion attempt per output')
